@@ -8,7 +8,7 @@
 (* ExpectedDrop (not early, and no later than the scheduling slack), and   *)
 (* removed from the state (C06).                                           *)
 (***************************************************************************)
-EXTENDS Keepalive, Json, IOUtils, SequencesExt
+EXTENDS KeepaliveDefs, Sequences, FiniteSets, TLC, Json, IOUtils, SequencesExt
 
 Runs == ndJsonDeserialize(IOEnv.TRACE)
 Slack == 1000      \* late tolerance (ms): "plus scheduling slack"
@@ -35,13 +35,14 @@ Problems(r) ==
 
 VARIABLE i
 TInit == i = 1
-TNext == /\ i <= Len(Runs)
-        /\ LET r == Runs[i] IN
-           IF "error" \in DOMAIN r THEN PrintT(<<"TIMERERR", ToJson(r)>>)
-           ELSE LET p == Problems(r) IN
-                IF p = {} THEN TRUE
-                ELSE PrintT(<<"TIMER", ToJson([ping |-> r.ping, pong |-> r.pong, pattern |-> r.pattern,
-                                               problems |-> SetToSeq(p), dropped_at |-> r.dropped_at, pings |-> r.pings])>>)
-        /\ i' = i + 1
+TNext ==
+    /\ i <= Len(Runs)
+    /\ LET r == Runs[i] IN
+       IF "error" \in DOMAIN r THEN PrintT(<<"TIMERERR", ToJson(r)>>)
+       ELSE LET p == Problems(r) IN
+            IF p = {} THEN TRUE
+            ELSE PrintT(<<"TIMER", ToJson([ping |-> r.ping, pong |-> r.pong, pattern |-> r.pattern,
+                                           problems |-> SetToSeq(p), dropped_at |-> r.dropped_at, pings |-> r.pings])>>)
+    /\ i' = i + 1
 TSpec == TInit /\ [][TNext]_i
 =============================================================================
